@@ -165,3 +165,574 @@ Proof.
   - intros H. discriminate.
   - intros [_ (n & w & H & _)]. discriminate.
 Qed.
+
+(* ------------------------------------------------------------------ preservation *)
+
+Ltac name_cases a b :=
+  let E := fresh "E" in
+  destruct (String.eqb a b) eqn:E; [apply seqb_true in E | pose proof (seqb_false _ _ E)].
+
+(* Save + serv.wallets.set of an updated copy w' of the wallet w in memory:
+   same name, same fingerprint, same temp flag *)
+Lemma commit_inv : forall s w w' dfail s' e,
+  inv s ->
+  find (w_name w') (mem s) = Some w ->
+  fp w' = fp w -> w_temp w' = w_temp w ->
+  (w_type w' <> TColl -> 1 <= w_n w') ->
+  (w_enc w' = true -> w_temp w' = false) ->
+  commit s w' dfail = (s', e) -> inv s'.
+Proof.
+  intros s w w' dfail s' e I Hw Hfp Htemp Hn Het Hc.
+  destruct I as [Um Ud Md U1 U2 F Fm Fd Nm Nd Ok Et].
+  assert (Hfw : forall f, (exists n x, find n (put w' (mem s)) = Some x /\ fp x = f) <->
+                          (exists n x, find n (mem s) = Some x /\ fp x = f)).
+  { intros f. split; intros (n & x & Hx & Hf).
+    - rewrite find_put in Hx. name_cases (w_name w') n.
+      + inversion Hx. subst x. exists (w_name w'), w. split; auto. congruence.
+      + eauto.
+    - name_cases (w_name w') n.
+      + subst n. rewrite Hw in Hx. inversion Hx. subst x.
+        exists (w_name w'), w'. rewrite find_put, seqb_refl. split; auto. congruence.
+      + exists n, x. rewrite find_put, E. auto. }
+  assert (Hfm : forall n1 n2 a b, find n1 (put w' (mem s)) = Some a -> find n2 (put w' (mem s)) = Some b ->
+                  fp a = fp b -> fp a <> 0 -> n1 = n2).
+  { intros n1 n2 a b Ha Hb Hab Hnz. rewrite find_put in Ha, Hb.
+    name_cases (w_name w') n1; name_cases (w_name w') n2; try congruence.
+    - inversion Ha. subst a. apply (Fm n1 n2 w b); auto; try congruence.
+    - inversion Hb. subst b. apply (Fm n1 n2 a w); auto; try congruence.
+    - eapply Fm; eauto. }
+  unfold commit, save in Hc.
+  destruct (w_temp w') eqn:Tw.
+  - (* temporary: only memory changes *)
+    inversion Hc. subst s' e. clear Hc.
+    constructor; cbn [mem disk fps unloaded]; auto.
+    + now apply uniq_put.
+    + intros n x Hx Hnt. rewrite find_put in Hx. name_cases (w_name w') n.
+      * inversion Hx. subst x. congruence.
+      * auto.
+    + intros n x Hx Hall. apply (U1 n x Hx). intros m Hm.
+      name_cases (w_name w') n.
+      * subst n. rewrite Hw in Hm. inversion Hm. subst m. congruence.
+      * apply Hall. rewrite find_put, E. auto.
+    + intros n x Hx Hnt. rewrite find_put in Hx. name_cases (w_name w') n.
+      * inversion Hx. subst x. congruence.
+      * eauto.
+    + intros f. pose proof (F f) as F1. pose proof (Hfw f) as F2. tauto.
+    + intros n x Hx Ht. rewrite find_put in Hx. name_cases (w_name w') n.
+      * inversion Hx. subst x. auto.
+      * eauto.
+    + intros n x Hx He. rewrite find_put in Hx. name_cases (w_name w') n.
+      * inversion Hx. subst x. specialize (Het He). congruence.
+      * eauto.
+  - destruct dfail.
+    + inversion Hc. subst s' e. constructor; auto.
+    + inversion Hc. subst s' e. clear Hc.
+      assert (Hwd : find (w_name w') (disk s) = Some w) by (apply Md; auto; congruence).
+      constructor; cbn [mem disk fps unloaded]; auto.
+      * now apply uniq_put.
+      * now apply uniq_put.
+      * intros n x Hx Hnt. rewrite find_put in *. name_cases (w_name w') n; auto.
+      * intros n x Hx Hall. rewrite find_put in Hx. name_cases (w_name w') n.
+        -- exfalso.
+           assert (Hq : find n (put w' (mem s)) = Some w') by (rewrite find_put, E, seqb_refl; auto).
+           specialize (Hall w' Hq). congruence.
+        -- apply (U1 n x Hx). intros m Hm. apply Hall. rewrite find_put, E. auto.
+      * intros n x Hx Hnt. rewrite find_put in Hx. name_cases (w_name w') n.
+        -- subst n. apply (U2 _ w Hw). congruence.
+        -- eauto.
+      * intros f. pose proof (F f) as F1. pose proof (Hfw f) as F2. tauto.
+      * intros n1 n2 a b Ha Hb Hab Hnz. rewrite find_put in Ha, Hb.
+        name_cases (w_name w') n1; name_cases (w_name w') n2; try congruence.
+        -- inversion Ha. subst a. apply (Fd n1 n2 w b); auto; try congruence.
+        -- inversion Hb. subst b. apply (Fd n1 n2 a w); auto; try congruence.
+        -- eapply Fd; eauto.
+      * intros n x Hx Ht. rewrite find_put in Hx. name_cases (w_name w') n.
+        -- inversion Hx. subst x. auto.
+        -- eauto.
+      * intros n x Hx Ht. rewrite find_put in Hx. name_cases (w_name w') n.
+        -- inversion Hx. subst x. auto.
+        -- eauto.
+      * intros n x Hx. rewrite find_put in Hx. name_cases (w_name w') n.
+        -- subst n. eapply Ok; eauto.
+        -- eauto.
+      * intros n x Hx He. rewrite find_put in Hx. name_cases (w_name w') n.
+        -- inversion Hx. subst x. auto.
+        -- eauto.
+Qed.
+
+Lemma scan_false : forall s f skip,
+  unloaded_file_has_fp s f skip = false ->
+  forall n x, find n (disk s) = Some x -> n <> skip ->
+    (forall m, find n (mem s) = Some m -> w_temp m = true) -> fp x <> f.
+Proof.
+  intros s f skip H n x Hx Hns Hall Hf.
+  unfold unloaded_file_has_fp in H.
+  assert (Hex : existsb (fun x0 : wallet => negb (String.eqb (w_name x0) skip) &&
+             match find (w_name x0) (mem s) with Some m => w_temp m | None => true end &&
+             (fp x0 =? f)) (disk s) = true); [|congruence].
+  apply existsb_exists. exists x. split; [eapply find_In; eauto|].
+  pose proof (find_name _ _ _ Hx) as Hn. rewrite Hn.
+  rewrite (seqb_neq n skip Hns). cbn.
+  destruct (find n (mem s)) as [m|] eqn:Em.
+  - rewrite (Hall m eq_refl). cbn. now apply Z.eqb_eq.
+  - cbn. now apply Z.eqb_eq.
+Qed.
+
+(* CreateWallet, success path *)
+Lemma create_inv : forall s w,
+  inv s ->
+  name_ok (w_name w) = true ->
+  (w_type w <> TColl -> 1 <= w_n w) ->
+  (w_enc w = true -> w_temp w = false) ->
+  (fp w <> 0 -> has_fp (fp w) (fps s) = false) ->
+  (fp w <> 0 -> w_temp w = false -> unloaded_file_has_fp s (fp w) (w_name w) = false) ->
+  find (w_name w) (mem s) = None ->
+  inv (mkSt (put w (mem s))
+            (if w_temp w then disk s else put w (disk s))
+            (if fp w =? 0 then fps s else (fp w, w_name w) :: fps s)
+            (if w_temp w then unloaded s else del_str (w_name w) (unloaded s))).
+Proof.
+  intros s w I Hok Hn Het Hfps Hscan Hnone.
+  destruct I as [Um Ud Md U1 U2 F Fm Fd Nm Nd Ok Et].
+  (* the new fingerprint is not in memory *)
+  assert (Hnew : forall n x, find n (mem s) = Some x -> fp x = fp w -> fp w = 0).
+  { intros n x Hx Hf. destruct (Z.eq_dec (fp w) 0) as [|Hnz]; auto.
+    specialize (Hfps Hnz). exfalso.
+    assert (has_fp (fp w) (fps s) = true); [|congruence].
+    apply F. split; auto. eauto. }
+  assert (HF : forall f, has_fp f (if fp w =? 0 then fps s else (fp w, w_name w) :: fps s) = true <->
+               f <> 0 /\ (exists n x, find n (put w (mem s)) = Some x /\ fp x = f)).
+  { intros f. destruct (fp w =? 0) eqn:Ez.
+    - apply Z.eqb_eq in Ez. rewrite F. split; intros [Hnz (n & x & Hx & Hf)]; split; auto.
+      + exists n, x. rewrite find_put. name_cases (w_name w) n; auto. congruence.
+      + rewrite find_put in Hx. name_cases (w_name w) n; eauto.
+        inversion Hx. subst x. congruence.
+    - apply Z.eqb_neq in Ez. rewrite has_fp_cons. split.
+      + intros H. apply orb_prop in H. destruct H as [H|H].
+        * apply Z.eqb_eq in H. subst f. split; auto.
+          exists (w_name w), w. rewrite find_put, seqb_refl. auto.
+        * apply F in H. destruct H as [Hnz (n & x & Hx & Hf)]. split; auto.
+          exists n, x. rewrite find_put. name_cases (w_name w) n; auto. congruence.
+      + intros [Hnz (n & x & Hx & Hf)]. rewrite find_put in Hx. name_cases (w_name w) n.
+        * inversion Hx. subst x. rewrite Hf, Z.eqb_refl. reflexivity.
+        * apply orb_true_intro. right. apply F. split; eauto. }
+  assert (HFm : forall n1 n2 a b, find n1 (put w (mem s)) = Some a -> find n2 (put w (mem s)) = Some b ->
+                  fp a = fp b -> fp a <> 0 -> n1 = n2).
+  { intros n1 n2 a b Ha Hb Hab Hnz. rewrite find_put in Ha, Hb.
+    name_cases (w_name w) n1; name_cases (w_name w) n2; try congruence.
+    - inversion Ha. subst a. exfalso. apply Hnz. eapply Hnew; eauto.
+    - inversion Hb. subst b. exfalso. apply Hnz. rewrite Hab. eapply Hnew; eauto.
+    - eapply Fm; eauto. }
+  destruct (w_temp w) eqn:Tw.
+  - constructor; cbn [mem disk fps unloaded]; auto.
+    + now apply uniq_put.
+    + intros n x Hx Hnt. rewrite find_put in Hx. name_cases (w_name w) n.
+      * inversion Hx. subst x. congruence.
+      * auto.
+    + intros n x Hx Hall. apply (U1 n x Hx). intros m Hm.
+      name_cases (w_name w) n.
+      * subst n. congruence.
+      * apply Hall. rewrite find_put, E. auto.
+    + intros n x Hx Hnt. rewrite find_put in Hx. name_cases (w_name w) n.
+      * inversion Hx. subst x. congruence.
+      * eauto.
+    + intros n x Hx Ht. rewrite find_put in Hx. name_cases (w_name w) n.
+      * inversion Hx. subst x. auto.
+      * eauto.
+    + intros n x Hx He. rewrite find_put in Hx. name_cases (w_name w) n.
+      * inversion Hx. subst x. specialize (Het He). congruence.
+      * eauto.
+  - constructor; cbn [mem disk fps unloaded]; auto.
+    + now apply uniq_put.
+    + now apply uniq_put.
+    + intros n x Hx Hnt. rewrite find_put in *. name_cases (w_name w) n; auto.
+    + intros n x Hx Hall. rewrite find_put in Hx. name_cases (w_name w) n.
+      * exfalso.
+        assert (Hq : find n (put w (mem s)) = Some w) by (rewrite find_put, E, seqb_refl; auto).
+        specialize (Hall w Hq). congruence.
+      * rewrite mem_str_del_other; auto.
+        apply (U1 n x Hx). intros m Hm. apply Hall. rewrite find_put, E. auto.
+    + intros n x Hx Hnt. rewrite find_put in Hx. name_cases (w_name w) n.
+      * subst n. apply mem_str_del_same.
+      * rewrite mem_str_del_other; eauto.
+    + (* no two files with one fingerprint *)
+      assert (Hone : forall n b, find n (disk s) = Some b -> n <> w_name w -> fp b = fp w -> fp w = 0).
+      { intros n b Hb Hne Hf. destruct (Z.eq_dec (fp w) 0) as [|Hnz]; auto. exfalso.
+        destruct (find n (mem s)) as [m|] eqn:Em.
+        - destruct (w_temp m) eqn:Tm.
+          + apply (scan_false s (fp w) (w_name w) (Hscan Hnz eq_refl) n b Hb Hne); auto.
+            intros m' Hm'. congruence.
+          + pose proof (Md n m Em Tm) as Hd. rewrite Hb in Hd. inversion Hd. subst m.
+            apply Hnz. eapply Hnew; eauto.
+        - apply (scan_false s (fp w) (w_name w) (Hscan Hnz eq_refl) n b Hb Hne); auto.
+          intros m' Hm'. congruence. }
+      intros n1 n2 a b Ha Hb Hab Hnz. rewrite find_put in Ha, Hb.
+      name_cases (w_name w) n1; name_cases (w_name w) n2; try congruence.
+      * inversion Ha. subst a. exfalso. apply Hnz. eapply (Hone n2 b); eauto.
+      * inversion Hb. subst b. exfalso. apply Hnz. rewrite Hab. eapply (Hone n1 a); eauto.
+      * eapply Fd; eauto.
+    + intros n x Hx Ht. rewrite find_put in Hx. name_cases (w_name w) n.
+      * inversion Hx. subst x. auto.
+      * eauto.
+    + intros n x Hx Ht. rewrite find_put in Hx. name_cases (w_name w) n.
+      * inversion Hx. subst x. auto.
+      * eauto.
+    + intros n x Hx. rewrite find_put in Hx. name_cases (w_name w) n.
+      * subst n. auto.
+      * eauto.
+    + intros n x Hx He. rewrite find_put in Hx. name_cases (w_name w) n.
+      * inversion Hx. subst x. auto.
+      * eauto.
+Qed.
+
+(* UnloadWallet *)
+Lemma unload_inv : forall s name w,
+  inv s -> find name (mem s) = Some w ->
+  inv (mkSt (del name (mem s)) (disk s)
+            (if fp w =? 0 then fps s else del_fp (fp w) (fps s))
+            (if mem_str name (unloaded s) then unloaded s else name :: unloaded s)).
+Proof.
+  intros s name w I Hw.
+  destruct I as [Um Ud Md U1 U2 F Fm Fd Nm Nd Ok Et].
+  assert (Hu : forall n, mem_str n (if mem_str name (unloaded s) then unloaded s else name :: unloaded s) =
+                         String.eqb n name || mem_str n (unloaded s)).
+  { intros n. destruct (mem_str name (unloaded s)) eqn:Eu.
+    - name_cases n name; auto. subst n. rewrite Eu. reflexivity.
+    - now rewrite mem_str_cons. }
+  constructor; cbn [mem disk fps unloaded]; auto.
+  - now apply uniq_del.
+  - intros n x Hx Hnt. rewrite find_del in Hx. name_cases name n; [discriminate|]. auto.
+  - intros n x Hx Hall. rewrite Hu. name_cases n name; auto. cbn.
+    apply (U1 n x Hx). intros m Hm. apply Hall. rewrite find_del.
+    rewrite seqb_neq; auto.
+  - intros n x Hx Hnt. rewrite find_del in Hx. name_cases name n; [discriminate|].
+    rewrite Hu. rewrite seqb_neq; auto. cbn. eauto.
+  - intros f. destruct (fp w =? 0) eqn:Ez.
+    + apply Z.eqb_eq in Ez. rewrite F. split; intros [Hnz (n & x & Hx & Hf)]; split; auto.
+      * exists n, x. rewrite find_del. name_cases name n; auto.
+        subst n. rewrite Hw in Hx. inversion Hx. subst x. congruence.
+      * rewrite find_del in Hx. name_cases name n; [discriminate|]. eauto.
+    + apply Z.eqb_neq in Ez. rewrite has_fp_del. split.
+      * intros H. apply andb_prop in H. destruct H as [H1 H2].
+        apply F in H2. destruct H2 as [Hnz (n & x & Hx & Hf)]. split; auto.
+        exists n, x. rewrite find_del. name_cases name n; auto.
+        subst n. rewrite Hw in Hx. inversion Hx. subst x.
+        rewrite Hf, Z.eqb_refl in H1. discriminate.
+      * intros [Hnz (n & x & Hx & Hf)]. rewrite find_del in Hx. name_cases name n; [discriminate|].
+        apply andb_true_intro. split.
+        -- destruct (f =? fp w) eqn:E2; auto. apply Z.eqb_eq in E2. exfalso.
+           apply H. symmetry. apply (Fm n name x w); auto; congruence.
+        -- apply F. split; eauto.
+  - intros n1 n2 a b Ha Hb. rewrite find_del in Ha, Hb.
+    name_cases name n1; [discriminate|]. name_cases name n2; [discriminate|]. eauto.
+  - intros n x Hx. rewrite find_del in Hx. name_cases name n; [discriminate|]. eauto.
+  - intros n x Hx. rewrite find_del in Hx. name_cases name n; [discriminate|]. eauto.
+Qed.
+
+Definition E_some : forall e : string, E e = Some e := fun _ => eq_refl.
+
+(* every operation preserves the invariant *)
+Lemma step_inv : forall s o, inv s -> wf_op o = true -> inv (fst (step s o)).
+Proof.
+  intros s o I Hwf. unfold step.
+  destruct o as [name typ seed label enc pw n temp dfail | name pw n dfail | name pw num dfail
+                | name label dfail | name pw dfail | name pw dfail | name seed pw dfail
+                | name | name pw fok label dfail | name fok label dfail]; cbn [step_gen].
+  - (* Create *)
+    cbn in Hwf. apply andb_prop in Hwf. destruct Hwf as [Hok Hn]. apply Z.leb_le in Hn.
+    repeat match goal with
+           | |- inv (fst (if ?c then _ else _)) =>
+               lazymatch type of c with bool => destruct c eqn:?; [exact I|] end
+           end.
+    match goal with |- context [fp ?x] => set (w := x) in * end.
+    destruct (find name (mem s)) eqn:Ef; [exact I|].
+    unfold save. cbn [w_temp w].
+    assert (Hn1 : w_type w <> TColl -> 1 <= w_n w).
+    { cbn [w_type w_n w]. intros Ht. apply Z.eqb_neq in Ht. rewrite Ht.
+      destruct (n =? 0) eqn:En; [lia|]. apply Z.eqb_neq in En. lia. }
+    assert (Het : w_enc w = true -> w_temp w = false).
+    { cbn [w_enc w_temp w]. intros He. subst enc. destruct temp; auto. }
+    assert (Hfps : fp w <> 0 -> has_fp (fp w) (fps s) = false).
+    { intros Hnz. apply Z.eqb_neq in Hnz.
+      match goal with H : negb (fp w =? 0) && has_fp _ _ = false |- _ => rewrite Hnz in H; exact H end. }
+    destruct temp.
+    + pose proof (create_inv s w I Hok Hn1 Het Hfps) as C. cbn [w_temp w_name w] in C.
+      apply C; auto. intros; discriminate.
+    + destruct dfail.
+      * (* the scan or the save fails *)
+        destruct (fp w =? 0) eqn:Ez; cbn in *; try discriminate; exact I.
+      * pose proof (create_inv s w I Hok Hn1 Het Hfps) as C. cbn [w_temp w_name w] in C.
+        apply C; auto. intros Hnz _. apply Z.eqb_neq in Hnz.
+        match goal with H : true && negb (fp w =? 0) && negb false && unloaded_file_has_fp _ _ _ = false |- _ =>
+          rewrite Hnz in H; exact H end.
+  - (* NewAddr *)
+    cbn in Hwf. apply Z.leb_le in Hwf.
+    destruct (find name (mem s)) as [w|] eqn:Ef; [|exact I].
+    destruct (guard_pw w pw); [exact I|].
+    pose proof (find_name _ _ _ Ef) as Hnm.
+    match goal with |- inv (fst (commit s ?w' ?d)) => destruct (commit s w' d) as [s' e] eqn:Ec;
+      apply (commit_inv s w w' d s' e I); auto end.
+    + cbn. now rewrite Hnm.
+    + cbn [w_type w_n]. intros Ht. destruct I. specialize (i_nm0 _ _ Ef Ht).
+      apply Z.eqb_neq in Ht. rewrite Ht. lia.
+    + cbn. destruct I. eauto.
+  - (* Scan *)
+    destruct (find name (mem s)) as [w|] eqn:Ef; [|exact I].
+    destruct (guard_pw w pw); [exact I|].
+    destruct (w_type w =? TColl); [exact I|].
+    pose proof (find_name _ _ _ Ef) as Hnm.
+    destruct (commit s w dfail) as [s' e] eqn:Ec.
+    apply (commit_inv s w w dfail s' e I); auto.
+    + now rewrite Hnm.
+    + destruct I. eauto.
+    + destruct I. eauto.
+  - (* SetLabel *)
+    destruct (find name (mem s)) as [w|] eqn:Ef; [|exact I].
+    pose proof (find_name _ _ _ Ef) as Hnm.
+    match goal with |- inv (fst (commit s ?w' ?d)) => destruct (commit s w' d) as [s' e] eqn:Ec;
+      apply (commit_inv s w w' d s' e I); auto end.
+    + cbn. now rewrite Hnm.
+    + cbn. destruct I. eauto.
+    + cbn. destruct I. eauto.
+  - (* Encrypt *)
+    destruct (find name (mem s)) as [w|] eqn:Ef; [|exact I].
+    destruct (w_enc w); [exact I|]. destruct (w_temp w) eqn:Tw; [exact I|].
+    destruct (pw =? 0); [exact I|].
+    pose proof (find_name _ _ _ Ef) as Hnm.
+    match goal with |- inv (fst (commit s ?w' ?d)) => destruct (commit s w' d) as [s' e] eqn:Ec;
+      apply (commit_inv s w w' d s' e I); auto end.
+    + cbn. now rewrite Hnm.
+    + cbn. destruct I. eauto.
+  - (* Decrypt *)
+    destruct (find name (mem s)) as [w|] eqn:Ef; [|exact I].
+    destruct (negb (w_enc w)); [exact I|]. destruct (pw =? 0); [exact I|].
+    destruct (negb (pw =? w_pw w)); [exact I|].
+    pose proof (find_name _ _ _ Ef) as Hnm.
+    match goal with |- inv (fst (commit s ?w' ?d)) => destruct (commit s w' d) as [s' e] eqn:Ec;
+      apply (commit_inv s w w' d s' e I); auto end.
+    + cbn. now rewrite Hnm.
+    + cbn. destruct I. eauto.
+    + cbn. intros; discriminate.
+  - (* Recover *)
+    destruct (find name (mem s)) as [w|] eqn:Ef; [|exact I].
+    destruct (w_enc w) eqn:Ew; [|exact I]. cbn [negb].
+    destruct (negb (w_type w =? TDet)); [exact I|]. destruct (seed =? 0); [exact I|].
+    destruct (negb (fp_of (w_type w) seed =? fp w)) eqn:Efp; [exact I|].
+    apply negb_false_iff in Efp. apply Z.eqb_eq in Efp.
+    pose proof (find_name _ _ _ Ef) as Hnm.
+    assert (Tw : w_temp w = false) by (destruct I; eauto).
+    match goal with |- inv (fst (commit s ?w' ?d)) => destruct (commit s w' d) as [s' e] eqn:Ec;
+      apply (commit_inv s w w' d s' e I); auto end.
+    + cbn. now rewrite Hnm.
+    + cbn. destruct I. eauto.
+  - (* Unload *)
+    destruct (find name (mem s)) as [w|] eqn:Ef; [|exact I].
+    cbn [fst]. now apply unload_inv.
+  - (* UpdateSecrets *)
+    destruct (find name (mem s)) as [w|] eqn:Ef; [|exact I].
+    destruct (guard_pw w pw); [exact I|]. destruct (negb fok); [exact I|].
+    pose proof (find_name _ _ _ Ef) as Hnm.
+    match goal with |- inv (fst (commit s ?w' ?d)) => destruct (commit s w' d) as [s' e] eqn:Ec;
+      apply (commit_inv s w w' d s' e I); auto end.
+    + cbn. now rewrite Hnm.
+    + cbn. destruct I. eauto.
+    + cbn. destruct I. eauto.
+  - (* Update *)
+    destruct (find name (mem s)) as [w|] eqn:Ef; [|exact I].
+    destruct (negb fok); [exact I|].
+    pose proof (find_name _ _ _ Ef) as Hnm.
+    match goal with |- inv (fst (commit s ?w' ?d)) => destruct (commit s w' d) as [s' e] eqn:Ec;
+      apply (commit_inv s w w' d s' e I); auto end.
+    + cbn. now rewrite Hnm.
+    + cbn. destruct I. eauto.
+    + cbn. destruct I. eauto.
+Qed.
+
+Lemma run_inv : forall ops s, forallb wf_op ops = true -> inv s -> inv (run ops s).
+Proof.
+  unfold run. induction ops as [|o r IH]; cbn; intros s Hwf I; auto.
+  apply andb_prop in Hwf. destruct Hwf as [H1 H2].
+  apply IH; auto. now apply step_inv.
+Qed.
+
+(* ------------------------------------------------------------------ from the invariant to the views *)
+
+Lemma filter_id : forall (A : Type) (p : A -> bool) l, (forall x, In x l -> p x = true) -> filter p l = l.
+Proof.
+  induction l as [|x r IH]; cbn; intros H; auto.
+  rewrite (H x (or_introl eq_refl)). f_equal. apply IH. intros; apply H; auto.
+Qed.
+
+Lemma find_none_filter : forall p n l, ~ In n (map w_name l) -> find n (filter p l) = None.
+Proof.
+  induction l as [|x r IH]; cbn; intros H; auto.
+  destruct (p x); cbn.
+  - rewrite seqb_neq; [apply IH|]; intuition.
+  - apply IH. intuition.
+Qed.
+
+Lemma find_filter : forall p n l, uniq l ->
+  find n (filter p l) = match find n l with Some w => if p w then Some w else None | None => None end.
+Proof.
+  induction l as [|x r IH]; cbn; intros U; auto.
+  inversion U as [|? ? Hn U']. subst.
+  name_cases (w_name x) n.
+  - destruct (p x); cbn.
+    + now rewrite E, seqb_refl.
+    + apply find_none_filter. now rewrite <- E.
+  - destruct (p x); cbn; [rewrite E|]; auto.
+Qed.
+
+Lemma eqb_wallet_refl : forall w, eqb_wallet w w = true.
+Proof.
+  intros w. unfold eqb_wallet. rewrite seqb_refl, !Z.eqb_refl, !Bool.eqb_reflx. reflexivity.
+Qed.
+
+(* fingerprints pairwise distinct, as the loader checks them *)
+Lemma nodup_fps_true : forall l seen,
+  uniq l ->
+  (forall a b, In a l -> In b l -> fp a = fp b -> fp a <> 0 -> w_name a = w_name b) ->
+  (forall a, In a l -> fp a <> 0 -> ~ In (fp a) seen) ->
+  nodup_fps seen l = true.
+Proof.
+  induction l as [|x r IH]; cbn; intros seen U Hd Hs; auto.
+  inversion U as [|? ? Hn U']. subst.
+  destruct (fp x =? 0) eqn:Ez.
+  - apply IH; auto.
+  - apply Z.eqb_neq in Ez.
+    destruct (existsb (Z.eqb (fp x)) seen) eqn:Ex.
+    + apply existsb_exists in Ex. destruct Ex as (f & Hf & Ef). apply Z.eqb_eq in Ef. subst f.
+      exfalso. apply (Hs x); auto.
+    + apply IH; auto. intros a Ha Hnz [Hin|Hin].
+      * apply Hn. rewrite (Hd x a); auto. now apply in_map.
+      * apply (Hs a); auto.
+Qed.
+
+Lemma inv_fd_In : forall s, inv s ->
+  forall a b, In a (disk s) -> In b (disk s) -> fp a = fp b -> fp a <> 0 -> w_name a = w_name b.
+Proof.
+  intros s I a b Ha Hb. destruct I. eapply i_fd0; apply In_find; auto.
+Qed.
+
+Lemma inv_fm_In : forall s, inv s ->
+  forall a b, In a (mem s) -> In b (mem s) -> fp a = fp b -> fp a <> 0 -> w_name a = w_name b.
+Proof.
+  intros s I a b Ha Hb. destruct I. eapply i_fm0; apply In_find; auto.
+Qed.
+
+Lemma inv_reload : forall s, inv s -> reload (disk s) = RLoaded (disk s).
+Proof.
+  intros s I. unfold reload.
+  assert (Hf : filter (fun w => name_ok (w_name w)) (disk s) = disk s).
+  { apply filter_id. intros x Hx. destruct I. eapply i_ok0. apply In_find; eauto. }
+  rewrite Hf.
+  rewrite (nodup_fps_true (disk s) []); [| destruct I; auto | now apply inv_fd_In | intros; intros []].
+  cbn [negb].
+  destruct (existsb (fun w => negb (w_type w =? TColl) && (w_n w <=? 0)) (disk s)) eqn:Ex; auto.
+  apply existsb_exists in Ex. destruct Ex as (x & Hx & Hb). apply andb_prop in Hb. destruct Hb as [H1 H2].
+  apply negb_true_iff in H1. apply Z.eqb_neq in H1. apply Z.leb_le in H2.
+  destruct I. pose proof (i_nd0 _ x (In_find _ _ i_udisk0 Hx) H1). lia.
+Qed.
+
+Lemma inv_mem_eq_disk : forall s, inv s -> mem_eq_disk_b s = true.
+Proof.
+  intros s I. unfold mem_eq_disk_b. rewrite (inv_reload s I).
+  pose proof I as I'. destruct I' as [Um Ud Md U1 U2 F Fm Fd Nm Nd Ok Et].
+  unfold eq_map, sub_map, not_unloaded, non_temp.
+  apply andb_true_intro. split; apply forallb_forall; intros x Hx; apply filter_In in Hx; destruct Hx as [Hx Hp].
+  - (* a file that was not unloaded is the wallet in memory *)
+    apply negb_true_iff in Hp.
+    pose proof (In_find _ _ Ud Hx) as Hfx.
+    rewrite find_filter; auto.
+    destruct (find (w_name x) (mem s)) as [m|] eqn:Em.
+    + destruct (w_temp m) eqn:Tm.
+      * exfalso. rewrite (U1 _ x Hfx) in Hp; [discriminate|]. intros m' Hm'. congruence.
+      * pose proof (Md _ m Em Tm) as Hd. rewrite Hfx in Hd.
+        assert (Hxm : x = m) by congruence. rewrite <- Hxm in *.
+        cbn. apply eqb_wallet_refl.
+    + exfalso. rewrite (U1 _ x Hfx) in Hp; [discriminate|]. intros m' Hm'. congruence.
+  - (* a non-temporary wallet in memory is its file, and was not unloaded *)
+    apply negb_true_iff in Hp.
+    pose proof (In_find _ _ Um Hx) as Hfx.
+    rewrite find_filter; auto.
+    rewrite (Md _ x Hfx Hp). rewrite (U2 _ x Hfx Hp). cbn. apply eqb_wallet_refl.
+Qed.
+
+Lemma inv_fps : forall s, inv s ->
+  nodup_fps [] (mem s) = true /\
+  forall f, has_fp f (fps s) = true <-> (f <> 0 /\ exists w, In w (mem s) /\ fp w = f).
+Proof.
+  intros s I. split.
+  - apply nodup_fps_true; [destruct I; auto | now apply inv_fm_In | intros; intros []].
+  - intros f. destruct I. rewrite i_f0. split; intros [Hnz H]; split; auto.
+    + destruct H as (n & w & Hw & Hf). exists w. split; auto. eapply find_In; eauto.
+    + destruct H as (w & Hw & Hf). exists (w_name w), w. split; auto. now apply In_find.
+Qed.
+
+(* a failed operation changes nothing *)
+Lemma step_failed_noop : forall s o s' e, step s o = (s', Some e) -> s' = s.
+Proof.
+  intros s o s' e H. unfold step in H.
+  destruct o; cbn [step_gen] in H; unfold commit in H;
+    repeat match type of H with
+           | context [match ?c with _ => _ end] => destruct c eqn:?
+           end; inversion H; auto.
+Qed.
+
+(* ------------------------------------------------------------------ the unchanged tree (F20) *)
+
+Definition f20_history : list op :=
+  [Create "a.wlt" TDet 1 1 false 0 1 false false; Unload "a.wlt"; Create "b.wlt" TDet 1 2 false 0 1 false false].
+
+Lemma f20_v0_refuted :
+  forallb wf_op f20_history = true /\
+  reload (disk (run_v0 f20_history init)) = RAbort /\
+  mem_eq_disk_b (run_v0 f20_history init) = false.
+Proof. vm_compute. repeat split; reflexivity. Qed.
+
+(* the same history on the current service: the second create is refused *)
+Lemma f20_now :
+  snd (step (run [Create "a.wlt" TDet 1 1 false 0 1 false false; Unload "a.wlt"] init)
+            (Create "b.wlt" TDet 1 2 false 0 1 false false)) = Some "ErrFingerprintConflict"%string.
+Proof. vm_compute. reflexivity. Qed.
+
+(* non-vacuity: a history with a temporary wallet, an unloaded wallet, an
+   encrypted one and a failed save; memory and directory differ as lists but
+   agree in the sense of the theorem *)
+Definition ex_history : list op :=
+  [Create "a.wlt" TDet 1 1 false 0 2 false false;
+   Create "t.wlt" TDet 2 1 false 0 1 true false;
+   Create "c.wlt" TColl 0 3 true 2 0 false false;
+   Encrypt "a.wlt" 1 false;
+   NewAddr "a.wlt" 1 3 true;
+   NewAddr "a.wlt" 1 3 false;
+   Unload "c.wlt";
+   Decrypt "a.wlt" 2 false].
+
+Lemma ex_history_ok :
+  forallb wf_op ex_history = true /\
+  map w_name (mem (run ex_history init)) = ["a.wlt"; "t.wlt"]%string /\
+  map w_name (disk (run ex_history init)) = ["a.wlt"; "c.wlt"]%string /\
+  map w_n (mem (run ex_history init)) = [5; 1] /\
+  mem_eq_disk_b (run ex_history init) = true.
+Proof. vm_compute. repeat split; reflexivity. Qed.
+
+(* ------------------------------------------------------------------ for all histories *)
+
+Lemma all_mem_eq_disk : forall ops, forallb wf_op ops = true -> mem_eq_disk_b (run ops init) = true.
+Proof. intros ops H. apply inv_mem_eq_disk. apply run_inv; [exact H | exact inv_init]. Qed.
+
+Lemma all_reload_total : forall ops, forallb wf_op ops = true ->
+  reload (disk (run ops init)) = RLoaded (disk (run ops init)).
+Proof. intros ops H. apply inv_reload. apply run_inv; [exact H | exact inv_init]. Qed.
+
+Lemma all_fps : forall ops, forallb wf_op ops = true ->
+  let s := run ops init in
+  nodup_fps [] (mem s) = true /\
+  forall f, has_fp f (fps s) = true <-> (f <> 0 /\ exists w, In w (mem s) /\ fp w = f).
+Proof. intros ops H. apply inv_fps. apply run_inv; [exact H | exact inv_init]. Qed.
+
+Lemma v0_refuted_ex :
+  exists ops, forallb wf_op ops = true /\
+    reload (disk (run_v0 ops init)) = RAbort /\ mem_eq_disk_b (run_v0 ops init) = false.
+Proof. exists f20_history. exact f20_v0_refuted. Qed.
